@@ -193,4 +193,12 @@ def WF (fs : List Frag) : Prop := wfL ctxTop fs = true
 
 instance (fs : List Frag) : Decidable (WF fs) := by unfold WF; infer_instance
 
+/-! ### the three documented ways to protect arbitrary text -/
+
+/-- a backslash in front of every character -/
+def escAll (s : Str) : Str := s.flatMap fun c => ['\\', c]
+
+/-- a backslash in front of each of `\ " ' $` (what has to be escaped inside double quotes) -/
+def escMeta (s : Str) : Str := s.flatMap fun c => if metaChars.contains c then ['\\', c] else [c]
+
 end SubstSpec
